@@ -6,7 +6,7 @@
    descriptor, for every number of components and weights, every argument type X and every commutative
    ring of values (V, 0, 1, +, *, -, opp) -- instantiated with Z for the correspondence run. *)
 From Coq Require Import String ZArith List Bool Ring_theory Ring ZArithRing.
-From OV Require Import Model.Weighted Gen.WeightedDescr.
+From OV Require Import Model.Weighted Model.WeightedLinear Gen.WeightedDescr.
 Import ListNotations.
 
 Section AnyCommutativeRing.
@@ -67,6 +67,30 @@ Section AnyCommutativeRing.
   Example C16_two_components : forall (f1 f2 : X -> V) (w1 w2 : V) (x : X),
     wf [f1; f2] [w1; w2] x = vadd (vmul w1 (f1 x)) (vmul w2 (f2 x)).
   Proof. intros. rewrite C16_value_is_weighted_sum by reflexivity. unfold wterm. simpl. ring. Qed.
+
+  (* linear in the weights: scaling all weights scales the value, adding weight vectors adds the values,
+     all-zero weights give 0 -- for the regenerated descriptor, any number of components, any ring *)
+  Theorem C16_scaling_the_weights_scales_the_value : forall (c : V) (fs : list (X -> V)) (ws : list V) (x : X),
+    length fs = length ws -> wf fs (map (vmul c) ws) x = vmul c (wf fs ws x).
+  Proof.
+    intros. apply (wf_scale V v0 v1 vadd vmul vsub vopp Vth X weighted_descr); try assumption;
+      apply C16_step_adds_weight_times_component.
+  Qed.
+
+  Theorem C16_adding_weight_vectors_adds_the_values : forall (fs : list (X -> V)) (ws ws' : list V) (x : X),
+    length fs = length ws -> length ws = length ws' ->
+    wf fs (wadd V vadd ws ws') x = vadd (wf fs ws x) (wf fs ws' x).
+  Proof.
+    intros. apply (wf_plus V v0 v1 vadd vmul vsub vopp Vth X weighted_descr); try assumption;
+      apply C16_step_adds_weight_times_component.
+  Qed.
+
+  Theorem C16_zero_weights_give_zero : forall (fs : list (X -> V)) (x : X),
+    wf fs (map (fun _ => v0) fs) x = v0.
+  Proof.
+    intros. apply (wf_zero_weights V v0 v1 vadd vmul vsub vopp Vth X weighted_descr);
+      apply C16_step_adds_weight_times_component.
+  Qed.
 End AnyCommutativeRing.
 
 (* the instance evaluated in the correspondence run (components Z-valued on list Z) *)
